@@ -3,9 +3,9 @@ net/http/http1/read.py, assemble.py, net/http/validate.py, proxy/layers/http/_ht
 from lib.coqterm import cN, cZ, cbool, cbytes, clist, copt, cpair
 
 ID = "C01"
-QUICK_N = 3600
-THOROUGH_N = 60000
-SHARD = 200
+QUICK_N = 1500
+THOROUGH_N = 8000
+SHARD = 130
 TRANSLATORS = ["body_size"]
 COQ_PRELUDE = "From MV Require Import Model.Http1Msg Model.BodySizePrelude Model.Http1Conn Model.Rfc9112.\n"
 RULE = ("28% request heads and 14% response heads as line lists from a grammar (methods incl. HEAD/CONNECT, origin/absolute/"
